@@ -25,7 +25,7 @@ from ..translate import blocks, ir
 THEOREMS = ["twosum", "fast_twosum", "twosum_fix_overflow", "fast2sum_fix_overflow", "ties_add_2sum",
             "twosum_generated", "fast2sum_generated", "twosum_fix_generated", "fast2sum_fix_generated", "generated_wf",
             "twosum_bit_exact", "twosum_bit_exact_any_format", "fast2sum_bit_exact_any_format", "soft_ops_correctly_rounded", "soft_div_correctly_rounded",
-            "veltkamp_split", "veltkamp_split_utils", "veltkamp_split_every_finite", "dekker_product", "dekker_product_subnormal_operands", "dekker_product_utils", "dekker_product_fix_overflow", "ties_dekker_fix", "veltkamp_split_scaled", "ties_split_scaled", "dekker_product_scaled", "ties_dekker_scaled", "dekker_product_scaled_fix_overflow", "ties_dekker_scaled_fix", "split_constants", "ties_split_dekker",
+            "veltkamp_split", "veltkamp_split_utils", "veltkamp_split_every_finite", "dekker_product", "dekker_product_subnormal_operands", "overflow_analyser_sound", "overflow_checks", "total_kinds", "Lmax_ge4", "twosum_total_f16", "twosum_total_f32", "twosum_total_f64", "dekker_total_f32", "dekker_total_f64", "dekker_product_utils", "dekker_product_fix_overflow", "ties_dekker_fix", "veltkamp_split_scaled", "ties_split_scaled", "dekker_product_scaled", "ties_dekker_scaled", "dekker_product_scaled_fix_overflow", "ties_dekker_scaled_fix", "split_constants", "ties_split_dekker",
             "dekker_generated", "split_generated", "soft_refines_rational", "refinement_scope", "dekker_kinds", "dekker_bit_exact_f32", "dekker_bit_exact_f16", "dekker_bit_exact_f64", "dekker_default_bit_exact_f32", "dekker_default_bit_exact_f16", "dekker_default_bit_exact_f64", "copies_agree_f16", "copies_agree_f32", "copies_agree_f64"]
 SEARCHED = ["Veltkamp splitter x = xh + xl and half-significand bit bounds (all variants, scale on/off; subnormal inputs)",
             "Dekker product h + l = x*y (all variants; scale=True, fix_overflow, apmath two_prod/split, algorithms.py copies are search-only)", "fix_overflow fallbacks", "float64/float32/float16 machine arithmetic = round-to-nearest (Soft vs NumPy)"]
@@ -47,7 +47,7 @@ LEVEL_TEXT = ("Proof for 2Sum and Fast2Sum (with and without fix_overflow): (1) 
               "every partial product and partial sum is shown representable. (3) Refinement theorem soft_refines_rational: for EVERY program of the arithmetic/comparison/select "
               "fragment, every format and input, the bit-exact softfloat run refines the run over Q with round-to-nearest-even whenever all float nodes are finite; through it "
               "Dekker's product is exact ON BIT PATTERNS for the regenerated mul_dekker in float16/32/64 (dekker_bit_exact_*) and, with its DEFAULT options (dekker_default_bit_exact_f16/f32/f64). mul_dekker(fix_overflow=True) keeps the exact pair whenever |xh*yh| does not exceed the largest finite value (dekker_product_fix_overflow, ties_dekker_fix). split_veltkamp(scale=True) satisfies the same statement for every normal |x| <= x_max (veltkamp_split_scaled, ties_split_scaled: scaling by 2^-t and back is exact). mul_dekker with its default options (scale=True) is exact for normal |x|, |y| <= x_max (dekker_product_scaled, ties_dekker_scaled). The copies (apmath two_sum / quick_two_sum / split / two_prod; the algorithms.py and utils.py copies) return, for EVERY input pattern, the same bit patterns as the functions above (copies_agree_f16/32/64), so the theorems hold for them too. scale=True with fix_overflow=True likewise (dekker_product_scaled_fix_overflow): the whole option matrix of mul_dekker is covered. The apmath and algorithms.py copies (they carry "
-              "non-finite constants and selects) over Q are decided by exact-rational search on the real functions (bit level: copies_agree). Subnormal operands: the unscaled splitters are exact on EVERY representable x including subnormals and zero (veltkamp_split_every_finite: veltkamp_gen is proved on the 2^emin lattice), and the unscaled Dekker product is exact with subnormal operands under the one documented condition ex + ey >= emin (dekker_product_subnormal_operands); for the scaled variants subnormal operands are decided by search.")
+              "non-finite constants and selects) over Q are decided by exact-rational search on the real functions (bit level: copies_agree). UNCONDITIONAL ON EXPLICIT BOXES (Props/C10Total.lean): a verified overflow analyser (Models/Overflow.lean: per node an exponent k with |value| <= 2^k in the Q-run, from exponent bounds on the inputs; sound because powers of two are representable and rounding is monotone, Lemmas/OverflowSound.lean) + the forward refinement theorem (if the Q-run stays within +-Lmax the bit-exact run exists and is finite everywhere) + the no-overflow lemmas add/sub/mul/div_finite turn 'whenever no node overflows' into a kernel-evaluated check (overflow_checks): twosum_total_f16/f32/f64 — for ALL finite patterns with |x|,|y| <= 2^10 / 2^122 / 2^1018 the run of add_2sum exists, is finite, and value(s) = RNE(x+y), value(s)+value(t) = x+y; dekker_total_f32/f64 — for all normal patterns with |x|,|y| <= 2^46 / 2^479 and ex+ey >= emin the run of mul_dekker exists, is finite, and h = RNE(xy), h + l = xy. Subnormal operands: the unscaled splitters are exact on EVERY representable x including subnormals and zero (veltkamp_split_every_finite: veltkamp_gen is proved on the 2^emin lattice), and the unscaled Dekker product is exact with subnormal operands under the one documented condition ex + ey >= emin (dekker_product_subnormal_operands); for the scaled variants subnormal operands are decided by search.")
 LEVEL_NOTE = ("Overflow excluded by hypothesis as the property words it. Softfloat == machine arithmetic is validated by a 3-way bit-level cross-check each run "
               "(and its add/sub/mul/div are proved correctly rounded). Splitter/Dekker: theorems for all option combinations on normal operands and for the unscaled variants also on subnormal operands; |x| > x_max and scaled variants on subnormal operands by search.")
 TECHNIQUE = "Lean 4 proof (Flocq-style FP theory over Q) on translator-regenerated DAGs + bit-level 3-way correspondence + exact-rational search"
@@ -257,7 +257,7 @@ def run(ctx):
     ctx.rule = ("per (variant, dtype): directed finite operand tuples (ties, half-significand boundaries, subnormal binades, overflow edge, the float32 "
                 "13-bit sliver); non-trivial = inside the documented domain with a non-zero low word; distinct by (variant, dtype, operand bits)")
     V, progs, errors = generate(ctx)
-    broken = ctx.lean_stage(["FAVerif.Props.C10"], THEOREMS)
+    broken = ctx.lean_stage(["FAVerif.Props.C10", "FAVerif.Props.C10Total"], THEOREMS)
     # Soft vs machine arithmetic
     n_soft, bad = softcheck.run(ctx, ctx.scale(20000, 400000))
     ctx.obligation(f"softfloat==numpy on {n_soft} directed operations", not bad, kind="validation")
